@@ -9,6 +9,7 @@ package presence
 // getAllPresence returns for that ssid.
 
 import (
+	"github.com/emitter-io/emitter/internal/event"
 	"github.com/emitter-io/emitter/internal/message"
 	"github.com/emitter-io/emitter/internal/provider/contract"
 	"github.com/emitter-io/emitter/internal/security"
@@ -103,4 +104,43 @@ func post_lookupPresence_complete(s *Service, res0 []Info) bool { // and every c
 		}
 		return (len(res0) >= 1 && specIsInfoOf(res0[0], subs[k])) || (len(res0) >= 2 && specIsInfoOf(res0[1], subs[k]))
 	})
+}
+
+// What a notification says and where it goes (C18, second sentence): newNotification carries the event kind it was
+// given, the subscribing connection's id and username and the channel of the subscription, and is addressed to the
+// PRESENCE ssid of the subscription's ssid (which a watcher of that channel or of a parent channel matches by
+// prefix: C01); send publishes each queued notification exactly once (when it encodes), with the notification's
+// ssid and its own filter, and nothing otherwise.
+//@ assume (*github.com/emitter-io/emitter/internal/event.Subscription).ConnID iface
+//@ assume (*Notification).Encode iface
+//@ assume github.com/emitter-io/emitter/internal/message.New iface
+
+// @ verify newNotification pre=pre_newNotification post=post_newNotification props=C18
+func pre_newNotification(ev *event.Subscription) bool { return ev != nil }
+func post_newNotification(event EventType, ev *event.Subscription, res0 *Notification) bool {
+	p, c := vs.TraceFind("NewSsidForPresence"), vs.TraceFind("ConnID")
+	if res0 == nil || p < 0 || c < 0 || vs.TraceCount("NewSsidForPresence") != 1 {
+		return false
+	}
+	got, want := vs.TraceRet[message.Ssid](p, 0), res0.Ssid
+	return res0.Event == event && specSameWords(vs.TraceArg[message.Ssid](p, 0), ev.Ssid) &&
+		len(got) == len(want) && (len(got) == 0 || vs.OffsetOf(want, got) == 0) &&
+		res0.Who.ID == vs.TraceRet[string](c, 0) && res0.Who.Username == string(ev.User) && len(res0.Channel) == len(ev.Channel) &&
+		vs.Forall(0, len(ev.Channel), func(i int) bool { return res0.Channel[i] == ev.Channel[i] })
+}
+
+// @ verify (*Service).send pre=pre_send post=post_send props=C18
+func pre_send(s *Service, ev *Notification) bool { return s != nil && s.pubsub != nil && ev != nil }
+func post_send(s *Service, ev *Notification) bool {
+	e := vs.TraceFind("Notification).Encode")
+	if e < 0 || vs.TraceCount("Notification).Encode") != 1 {
+		return false
+	}
+	if !vs.TraceRet[bool](e, 1) {
+		return vs.TraceCount("PubSub).Publish") == 0
+	}
+	n, p := vs.TraceFind("message.New"), vs.TraceFind("PubSub).Publish")
+	return n > e && p > n && vs.TraceCount("PubSub).Publish") == 1 && vs.TraceCount("message.New") == 1 &&
+		specSameWords(vs.TraceArg[message.Ssid](n, 0), ev.Ssid) && vs.SameBytes(vs.TraceArg[[]byte](n, 2), vs.TraceRet[[]byte](e, 0)) &&
+		vs.TraceArg[*message.Message](p, 1) == vs.TraceRet[*message.Message](n, 0)
 }
